@@ -38,13 +38,23 @@ const bscEpoch = 4
 
 // H_C17_bsc_header: one header against an arbitrary client state (1..3 validators, 0..2 recent
 // signers, symbolic latest height) -- accepted iff it is a correctly sealed direct child.
-func H_C17_bsc_header() {
+func H_C17_bsc_header() { bscHeader(false) }
+
+// H_C17_bsc_window: the recent-signer window in isolation: 2 (thorough: 2..3) validators, latest height 21, the last two blocks
+// sealed by arbitrary members (possibly the same one, as after a change of the set's size), an
+// otherwise faultless header. Run with every iteration order of the recents map.
+func H_C17_bsc_window() { bscHeader(true) }
+
+func bscHeader(windowOnly bool) {
 	ctx := vp.Ctx()
 	store := clientStore(ctx)
 	cdc := bscCodec()
 
 	// validator set of N distinct members
 	n := 1 + vp.Choice("validators", vp.Bound(2, 3))
+	if windowOnly {
+		n = 2 + vp.Choice("validators.window", vp.Bound(1, 2))
+	}
 	var pubs [][]byte
 	var vals [][]byte
 	for i := 0; i < n; i++ {
@@ -56,26 +66,21 @@ func H_C17_bsc_header() {
 		pubs = append(pubs, p)
 		vals = append(vals, addrOf(p))
 	}
-	latestH := vp.Uint64("latest.height")
-	vp.Assume(latestH >= 11 && latestH <= 97) // bound: two-digit heights (store keys spell heights in decimal)
-	parent := bsctypes.Header{Height: clienttypes.NewHeight(0, latestH), GasLimit: vp.Uint64("parent.gasLimit"), UncleHash: emptyUncleHash,
+	latestH := uint64(21)
+	if !windowOnly {
+		latestH = vp.Uint64("latest.height")
+		vp.Assume(latestH >= 11 && latestH <= 97) // bound: two-digit heights (store keys spell heights in decimal)
+	}
+	parentGas := uint64(30_000_000)
+	if !windowOnly {
+		parentGas = vp.Uint64("parent.gasLimit")
+	}
+	parent := bsctypes.Header{Height: clienttypes.NewHeight(0, latestH), GasLimit: parentGas, UncleHash: emptyUncleHash,
 		Extra: make([]byte, 32+65), Difficulty: 2, Root: []byte{9}}
 	vp.Assume(parent.GasLimit < 1<<62)
 	cs := &bsctypes.ClientState{Header: parent, ChainId: 56, Epoch: bscEpoch, BlockInteval: 3, Validators: vals}
 	bz, _ := clienttypes.MarshalConsensusState(cdc, &bsctypes.ConsensusState{Timestamp: 1, Number: parent.Height, Root: parent.Root})
 	store.Set(host.ConsensusStateKey(parent.Height), bz)
-
-	// recent signers: who sealed the last one or two blocks
-	nrec := vp.Choice("recents", vp.Bound(2, 3))
-	recentIdx := make([]int, nrec)
-	for i := 0; i < nrec; i++ {
-		recentIdx[i] = vp.Choice("recent.signer", n)
-		bsctypes.SetSigner(store, bsctypes.Signer{Height: clienttypes.NewHeight(0, latestH-uint64(i)), Validator: vals[recentIdx[i]]})
-	}
-	// pending validator set announced at the last epoch block
-	newPub := pubkey("announced.key")
-	announced := [][]byte{addrOf(newPub)}
-	bsctypes.SetPendingValidators(store, cdc, announced)
 
 	// the header under test: a correctly sealed direct child with exactly one deviation (or none)
 	const (
@@ -94,7 +99,21 @@ func H_C17_bsc_header() {
 		fUncleHash
 		nFaults
 	)
-	fault := vp.Choice("fault", nFaults)
+	fault, nrec := fNone, 2
+	if !windowOnly {
+		fault = vp.Choice("fault", nFaults)
+		nrec = vp.Choice("recents", vp.Bound(2, 3)) // recent signers: who sealed the last blocks
+	}
+	recentIdx := make([]int, nrec)
+	for i := 0; i < nrec; i++ {
+		recentIdx[i] = vp.Choice("recent.signer", n)
+		bsctypes.SetSigner(store, bsctypes.Signer{Height: clienttypes.NewHeight(0, latestH-uint64(i)), Validator: vals[recentIdx[i]]})
+	}
+	// pending validator set announced at the last epoch block
+	newPub := pubkey("announced.key")
+	announced := [][]byte{addrOf(newPub)}
+	bsctypes.SetPendingValidators(store, cdc, announced)
+
 	number := latestH + 1
 	if fault == fNumber {
 		number = vp.Uint64("number")
